@@ -33,7 +33,9 @@ import (
 
 func init() { log.SetGlobalLogger(fakepool.NullLogger{}) }
 
-var dcNames = []string{"dcA", "dcB", ""}
+// datacenter tags: "" (untagged / proxy without datacenter) and names where one
+// is a prefix of another, so that only exact equality counts as local.
+var dcNames = []string{"bj", "bj2", "", "c3", "c31"}
 
 type nodeSpec struct {
 	W  int  `json:"w"`  // weight 0-8
@@ -49,7 +51,7 @@ type cluster struct {
 
 func genCluster(t *rapid.T, allUp bool) cluster {
 	var c cluster
-	c.ProxyDC = rapid.SampledFrom([]int{0, 0, 0, 2}).Draw(t, "proxy_dc")
+	c.ProxyDC = rapid.SampledFrom([]int{0, 0, 1, 2, 2, 3, 4}).Draw(t, "proxy_dc")
 	c.Policy = rapid.IntRange(0, 2).Draw(t, "policy")
 	n := rapid.SampledFrom([]int{1, 2, 2, 3, 3, 3, 4, 4, 5, 6}).Draw(t, "n")
 	dcMode := rapid.IntRange(0, 5).Draw(t, "dc_mode") // 0 all local, 1 all remote, 2-5 mixed
@@ -72,9 +74,16 @@ func genCluster(t *rapid.T, allUp bool) cluster {
 		case 0:
 			s.DC = c.ProxyDC
 		case 1:
-			s.DC = (c.ProxyDC + 1) % 3
+			s.DC = (c.ProxyDC + 1 + rapid.IntRange(0, len(dcNames)-2).Draw(t, "dc_other")) % len(dcNames)
+		case 2: // the proxy's tag and the tags that share a prefix with it (bj/bj2, c3/c31, ""/anything)
+			partner := map[int]int{0: 1, 1: 0, 3: 4, 4: 3}
+			if p, ok := partner[c.ProxyDC]; ok {
+				s.DC = rapid.SampledFrom([]int{c.ProxyDC, p, p, 2}).Draw(t, "dc_prefix")
+			} else { // empty proxy tag: every name has it as a prefix
+				s.DC = rapid.IntRange(0, len(dcNames)-1).Draw(t, "dc_any")
+			}
 		default:
-			s.DC = rapid.IntRange(0, 2).Draw(t, "dc")
+			s.DC = rapid.IntRange(0, len(dcNames)-1).Draw(t, "dc")
 		}
 		s.Up = allUp || rapid.IntRange(0, 3).Draw(t, "up") != 0
 		c.Nodes = append(c.Nodes, s)
@@ -216,8 +225,6 @@ func (s *sut) pick(policy int) (int, error) {
 
 func pow2(n int) bool { return n > 0 && n&(n-1) == 0 }
 
-const knownWrap = "C25-F1"
-
 // ---- window ----
 
 type windowCase struct {
@@ -279,13 +286,13 @@ func checkWindow(c windowCase) (o pbt.Outcome) {
 		}
 		seq[k] = got
 	}
-	// selection k consumed counter value Start+1+k; the counter passes from 2^32-1 to 0 between selections jw and jw+1
+	// selection k follows counter value Start+1+k; the raw uint32 value passes 2^32 between selections jw and jw+1
 	jw := int64(uint32(0xFFFFFFFE) - c.Start)
 	if c.Start == 0xFFFFFFFF {
 		jw = -10
 	}
 	if W > 1 && jw >= 0 && jw < int64(n)-1 {
-		o.Labels = append(o.Labels, "crosses_wraparound")
+		o.Labels = append(o.Labels, "start_within_3W_of_2^32")
 	}
 	cnt := map[int]int{}
 	for k := 0; k < n; k++ {
@@ -301,10 +308,6 @@ func checkWindow(c windowCase) (o pbt.Outcome) {
 			if cnt[i] != quota[i] {
 				detail := fmt.Sprintf("selections %d..%d (counter values from %d) pick replica %d %d times, its normalized weight is %d of %d; window=%v",
 					a, k, uint32(c.Start+1+uint32(a)), i, cnt[i], quota[i], W, seq[a:k+1])
-				if !pow2(W) && W > 1 && int64(a) <= jw && jw <= int64(k)-1 {
-					o.Known, o.KnownWhat = knownWrap, detail
-					return
-				}
 				o.Violation = detail
 				return
 			}
@@ -315,7 +318,7 @@ func checkWindow(c windowCase) (o pbt.Outcome) {
 
 func TestC25Window(t *testing.T) {
 	pbt.Run(t, pbt.Spec{ID: "C25", Sub: "window", Quick: 20000, Thorough: 100000,
-		Rule: "1-6 replicas, all up, weights 0-8 (equal / multiples of a common factor / free), datacenter tags all-local, all-remote or mixed over {proxy's, other, empty}, three policies, counter start 0 / small / last values before 2^32 / uniform; 3W selections, every window of W checked; non-trivial = unequal weights with gcd>1 or mixed datacenters",
+		Rule: "1-6 replicas, all up, weights 0-8 (equal / multiples of a common factor / free), datacenter tags all-local, all-remote or mixed over {bj, bj2, c3, c31, empty} (prefix-related names; the proxy tag may be empty), three policies, counter start 0 / small / last values before 2^32 / uniform; 3W selections, every window of W checked; non-trivial = unequal weights with gcd>1 or mixed datacenters",
 		Floor: 0.4}, genWindow, checkWindow)
 }
 
@@ -353,58 +356,6 @@ func genHealth(t *rapid.T) healthCase {
 	return c
 }
 
-// mirror follows the three round-robin counters the way getNodeFromBalancer
-// advances them. It is used ONLY to decide whether a failing call happened while
-// a counter passed 2^32 (classification of finding C25-F1), never as an oracle.
-type mirror struct {
-	q   [3][]int
-	ctr [3]uint32
-}
-
-func (m *mirror) try(b int, up []bool) (found bool, wrapped bool) {
-	q := m.q[b]
-	if len(q) == 0 {
-		return false, false
-	}
-	if len(q) == 1 {
-		return up[q[0]], false
-	}
-	for i := 0; i < len(q); i++ {
-		m.ctr[b]++
-		if m.ctr[b] == 0 && !pow2(len(q)) {
-			wrapped = true
-		}
-		if up[q[int64(m.ctr[b])%int64(len(q))]] {
-			return true, wrapped
-		}
-	}
-	return false, wrapped
-}
-
-func (m *mirror) call(policy int, up []bool) (wrapped bool) {
-	any := false
-	for _, u := range up {
-		any = any || u
-	}
-	if !any {
-		return false
-	}
-	switch policy {
-	case 2:
-		_, w := m.try(0, up)
-		return w
-	case 1:
-		f, w := m.try(0, up)
-		if f {
-			return w
-		}
-		_, w2 := m.try(1, up)
-		return w || w2
-	}
-	_, w := m.try(2, up)
-	return w
-}
-
 func checkHealth(c healthCase) (o pbt.Outcome) {
 	cl := c.Cluster
 	n := len(cl.Nodes)
@@ -419,7 +370,6 @@ func checkHealth(c healthCase) (o pbt.Outcome) {
 	}
 	o.Labels = append(o.Labels, fmt.Sprintf("policy_%d", cl.Policy))
 	backend.VerifSeekBalancers(s.db, c.Start)
-	m := &mirror{q: backend.VerifBalancerQueues(s.db), ctr: [3]uint32{c.Start, c.Start, c.Start}}
 	sawDown := false
 	seen := map[string]bool{}
 	label := func(l string) {
@@ -441,7 +391,6 @@ func checkHealth(c healthCase) (o pbt.Outcome) {
 			}
 		case "seek":
 			backend.VerifSeekBalancers(s.db, op.Seek)
-			m.ctr = [3]uint32{op.Seek, op.Seek, op.Seek}
 		case "sel":
 			for k := 0; k < op.N; k++ {
 				sel++
@@ -455,18 +404,11 @@ func checkHealth(c healthCase) (o pbt.Outcome) {
 						localCan = true
 					}
 				}
-				wrapped := m.call(cl.Policy, up)
 				got, err := s.pick(cl.Policy)
 				where := fmt.Sprintf("op %d selection %d (states up=%v)", oi, sel, up)
 				if got < 0 {
 					if len(el) > 0 {
-						detail := fmt.Sprintf("%s: GetSlaveConn failed (%v) although replicas %v are up and eligible under policy %d", where, err, el, cl.Policy)
-						if wrapped {
-							o.Known, o.KnownWhat = knownWrap, detail
-							label("selection_fails_at_wraparound")
-							continue
-						}
-						o.Violation = detail
+						o.Violation = fmt.Sprintf("%s: GetSlaveConn failed (%v) although replicas %v are up and eligible under policy %d", where, err, el, cl.Policy)
 						return
 					}
 					label("none_eligible_error")
@@ -483,14 +425,7 @@ func checkHealth(c healthCase) (o pbt.Outcome) {
 				case cl.Policy == 2 && !cl.local(got):
 					o.Violation = fmt.Sprintf("%s: force-local picked remote replica %d (dc %q, proxy %q)", where, got, dcNames[nd.DC], dcNames[cl.ProxyDC])
 				case cl.Policy == 1 && !cl.local(got) && localCan:
-					detail := fmt.Sprintf("%s: prefer-local picked remote replica %d although a local replica is up", where, got)
-					if wrapped {
-						// the local balancer's probes skipped a queue slot at 2^32 and found nothing
-						o.Known, o.KnownWhat = knownWrap, detail
-						label("prefer_local_falls_back_at_wraparound")
-						continue
-					}
-					o.Violation = detail
+					o.Violation = fmt.Sprintf("%s: prefer-local picked remote replica %d (dc %q, proxy %q) although a local replica is up", where, got, dcNames[nd.DC], dcNames[cl.ProxyDC])
 				}
 				if o.Violation != "" {
 					return
@@ -510,7 +445,7 @@ func checkHealth(c healthCase) (o pbt.Outcome) {
 
 func TestC25Health(t *testing.T) {
 	pbt.Run(t, pbt.Spec{ID: "C25", Sub: "health", Quick: 20000, Thorough: 100000,
-		Rule: "1-6 replicas with weights 0-8, datacenter tags, random up/down states, three policies; histories of status flips, counter seeks (incl. just before 2^32) and 1-12 selections; every pick judged against the eligible set of the statement; non-trivial = some replica down at a selection, or unequal weights with gcd>1, or mixed datacenters",
+		Rule: "1-6 replicas with weights 0-8, prefix-related datacenter tags (bj/bj2, c3/c31, empty), random up/down states, three policies; histories of status flips, counter seeks (incl. just before 2^32) and 1-12 selections; every pick judged against the eligible set of the statement; non-trivial = some replica down at a selection, or unequal weights with gcd>1, or mixed datacenters",
 		Floor: 0.6}, genHealth, checkHealth)
 }
 
@@ -588,9 +523,8 @@ func checkConc(c concCase) (o pbt.Outcome) {
 			return
 		}
 	}
-	crosses := W > 1 && !pow2(W) && uint64(c.Start)+uint64(total) >= 1<<32
-	if crosses {
-		o.Labels = append(o.Labels, "crosses_wraparound")
+	if W > 1 && uint64(c.Start)+uint64(total) >= 1<<32 {
+		o.Labels = append(o.Labels, "start_within_total_of_2^32")
 	}
 	for i := range cl.Nodes {
 		sum := 0
@@ -599,10 +533,6 @@ func checkConc(c concCase) (o pbt.Outcome) {
 		}
 		if sum != c.Multiple*quota[i] {
 			detail := fmt.Sprintf("%d goroutines, %d = %d*W selections from counter %d: replica %d (weight %d) picked %d times, expected %d", g, total, c.Multiple, c.Start, i, cl.Nodes[i].W, sum, c.Multiple*quota[i])
-			if crosses {
-				o.Known, o.KnownWhat = knownWrap, detail
-				return
-			}
 			o.Violation = detail
 			return
 		}
